@@ -1,0 +1,72 @@
+//go:build verif
+// +build verif
+
+// Contracts for the ion-go command, checked by the verification-condition generator in
+// /verif (ionvc). Comment-only: every line starting with //@ is part of a contract block
+// (see ion/zz_verif_contracts.go for the language). The Reader and the Writer are seen
+// through the interface contracts stated there.
+package main
+
+// ---------------------------------------------------------------------------
+// process.go: the copy loop is faithful per value (C20): a typed null is written as the
+// typed null of its type and nothing else is; every other value reaches the Writer method
+// of its own type, only when it is not null; no accessor result is dereferenced when it
+// can be nil; the loop never panics.
+
+//@ func (*ErrorReport).Append
+//@ trusted thin: assumed not to touch the processor (the report's encoder is not under contract; it panics when the report itself cannot be written)
+//@ modifies nothing
+
+//@ func (*processor).error
+//@ requires p.err != nil && err != nil
+//@ modifies nothing
+
+//@ func (*processor).process
+//@ split returns
+//@ requires in != nil && p.out != nil && p.err != nil && !vcSameObject(in, p.out)
+//@ modifies p.idx
+//@ invariant loop0 p.out == old(p.out) && p.err == old(p.err)
+//@ ensures[C20] p.out == old(p.out) && p.err == old(p.err)
+//@ atcall[C20] Reader.StepIn :: ion.Reader :: !in.IsNull() && (in.Type() == ion.ListType || in.Type() == ion.SexpType || in.Type() == ion.StructType)
+//@ atcall[C20] Writer.WriteNullType :: ion.Writer, ion.Type :: in.IsNull() && a1 == in.Type() && a1 != ion.NullType
+//@ atcall[C20] Writer.WriteNull :: ion.Writer :: in.Type() == ion.NullType
+//@ atcall[C20] Writer.WriteBool :: ion.Writer, bool :: in.Type() == ion.BoolType && !in.IsNull()
+//@ atcall[C20] Writer.WriteInt :: ion.Writer, int64 :: in.Type() == ion.IntType && !in.IsNull()
+//@ atcall[C20] Writer.WriteBigInt :: ion.Writer, *big.Int :: in.Type() == ion.IntType && !in.IsNull()
+//@ atcall[C20] Writer.WriteFloat :: ion.Writer, float64 :: in.Type() == ion.FloatType && !in.IsNull()
+//@ atcall[C20] Writer.WriteDecimal :: ion.Writer, *ion.Decimal :: in.Type() == ion.DecimalType && !in.IsNull() && a1 != nil
+//@ atcall[C20] Writer.WriteTimestamp :: ion.Writer, ion.Timestamp :: in.Type() == ion.TimestampType && !in.IsNull()
+//@ atcall[C20] Writer.WriteSymbol :: ion.Writer, ion.SymbolToken :: in.Type() == ion.SymbolType && !in.IsNull()
+//@ atcall[C20] Writer.WriteString :: ion.Writer, string :: in.Type() == ion.StringType && !in.IsNull()
+//@ atcall[C20] Writer.WriteClob :: ion.Writer, []byte :: in.Type() == ion.ClobType && !in.IsNull()
+//@ atcall[C20] Writer.WriteBlob :: ion.Writer, []byte :: in.Type() == ion.BlobType && !in.IsNull()
+//@ atcall[C20] (*processor).error a2 != nil
+//@ safe[C06,C20]
+
+// ---------------------------------------------------------------------------
+// eventwriter.go: the depth recorded in events follows the container boundaries, and the
+// struct-tracking map exists from construction (C20).
+
+//@ func NewEventWriter
+//@ modifies *
+//@ ensures[C20] result != nil
+
+//@ func (*eventwriter).write
+//@ modifies *
+
+//@ func (*eventwriter).BeginStruct
+//@ split returns
+//@ requires e.inStruct != nil
+//@ modifies *
+//@ ensures[C20] err == nil ==> e.depth == old(e.depth)+1
+//@ safe[C06,C20]
+
+//@ func (*eventwriter).BeginList
+//@ split returns
+//@ modifies *
+//@ ensures[C20] err == nil ==> e.depth == old(e.depth)+1
+
+//@ func (*eventwriter).BeginSexp
+//@ split returns
+//@ modifies *
+//@ ensures[C20] err == nil ==> e.depth == old(e.depth)+1
